@@ -243,7 +243,7 @@ func ensureWorker(flavor string) *buildInfo {
 		var why2 string
 		bi, why2 = try("plain")
 		if bi == nil {
-			infra("the working tree of %s does not build:\n%s\n%s", repoDir, why, why2)
+			infra("cannot build the worker (either %s does not compile or the harness is broken):\n%s\n%s", repoDir, why, why2)
 		}
 		bi.Note = "instrumented copy failed to build, fell back to plain copy: " + firstLines(why, 6)
 		fmt.Fprintf(os.Stderr, "check: warning: %s\n", bi.Note)
@@ -654,6 +654,8 @@ func checkProperty(prop, tier string, seed uint64, runs, budget, workers int, re
 		}
 		violations++
 		if violations > 5 {
+			fmt.Fprintf(os.Stderr, "  (not minimised) run=%d clause=%s signature=%s %s\n", f.Run, f.V.Clause, f.V.Sig, f.V.Detail)
+			exit = 1
 			continue
 		}
 		p, ok := minimiseAndReplay(bi, in, prop, seed, f, tmp)
